@@ -115,7 +115,7 @@ def event_tla(ev):
     elif e == "loop_end":
         f += _sync_fields(ev["sync"], ev.get("db"))
     elif e == "boot":
-        f += [("restart", tla(ev["restart"]))] + _sync_fields(ev["sync"], None)
+        f += [("restart", tla(ev["restart"]))] + _sync_fields(ev["sync"], ev.get("db"))
     elif e == "ds_update":
         def _sp(d):
             if d is None:
